@@ -89,6 +89,8 @@ def innermost_frame(tb):
 
 def crash_fail(exc, extra_sig=None):
     """Turn an exception that escaped the code under test into a Fail (clause = crash:<Type>@<file>:<func>)."""
+    if isinstance(exc, (CaseTimeout, HarnessError, KeyboardInterrupt)):
+        raise exc                      # the per-case alarm / a harness defect is never a property violation
     hit = innermost_repo_frame(exc.__traceback__)
     if isinstance(exc, RecursionError):
         # the innermost frame of a RecursionError is arbitrary; bucket by the function that recurses
